@@ -13,6 +13,7 @@ hand-written meaning of what `harness/translate/tlbparsers_blk.py` emits besides
   * `Rd.loadDictRaw n`            `Slice.load_dict(n)` without a value_deserializer (`libraries`, `prev_blk_signatures`): the values are raw
                                   Slices — recorded as `.con "slice" .unit` (presence only: the library does not parse them)
   * `Rd.presence`                 a constructor argument kept as an unparsed cell where the schema has a structured value: `None` / "a cell"
+  * `Rd.merkleUpdateOrd c`        `MerkleUpdate.deserialize(c, …)` for an ordinary cell `c`: `None`; exotic cells are outside the model
   * `Rd.tuple`                    a Python tuple → `.con "tuple" (.record [("0", a), ("1", b)])`
   * `Rd.augWalk x y`              `parse_aug` of boc/hashmap/parse.py: label (HmLabel reader), then a leaf reads `extra:Y` THEN `value:X`
                                   from the same cell (`extras.append(y(cs)); ret[prefix] = x(cs)`), a fork walks its two references and
@@ -88,6 +89,11 @@ def loadDictRaw (n : Nat) (s : Frag) : R := loadDict n rawLeaf s
 def presence : Val → Val
   | .unit => .unit
   | _ => .con "cell" .unit
+
+/-- `MerkleUpdate.deserialize(cell, deserializer)` of tlb/utils.py (text pinned) on an ORDINARY cell: `None` (`cell.type_ !=
+    CellTypes.merkle_update`).  Exotic cells are OUTSIDE this model (refused): a real Merkle update is parsed into two nested shard
+    states, which no theorem here covers -/
+def merkleUpdateOrd (c : Cell) : Option Val := if c.exotic then none else some .unit
 
 /-! ### augmented dictionaries -/
 
